@@ -42,4 +42,28 @@ CLAIMS = {
         "note": "metamorphic oracle (no model needed); adapter state compared through the public Clone/PartialEq + probe suffixes",
         "technique": "runtime monitoring: metamorphic chunked-vs-one-shot oracle with clone-and-probe of the final state, exhaustive partitions",
     },
+    "C06": {
+        "text": "Every inner-writer script of short counts {0,1,2,3,all} and errors {Interrupted, WouldBlock, Other} up to the depth bound (4 quick / 6 thorough) against 48 escape-rich inputs, for write, write_all, write_vectored and write_fmt, through StripStream and AutoStream::never; each call's result checked against what the inner writer accepted, the retry protocol driven to completion and the final state probed.  Fault enumeration: the fault space is finite per depth and enumerated completely; inputs beyond the fixed list are sampled.",
+        "design_ref": "7 C06",
+        "note": "trusts refmodel::vt::RefStrip; assumes a caller may retry after any error (std Write contract)",
+        "technique": "runtime monitoring: scripted fault-injecting inner writer + per-call history checker against a reference stripper, exhaustive fault scripts",
+    },
+    "C07": {
+        "text": "All single SGR sequences of up to 3 (quick) / 4 (thorough) attribute groups over a 40-group representative set from three start states, plus seeded SGR-grammar documents under chunking; style of every visible character compared with an independent SGR interpreter.",
+        "design_ref": "7 C07, 3.2, 8.4, 8.5",
+        "note": "trusts refmodel::{vt,sgr}; sequences selecting two different underline styles in one reset epoch are outside the explored domain",
+        "technique": RM,
+    },
+    "C17": {
+        "text": "All 17x17 colour pairs on every writer kind, and all fault scripts up to the depth bound at each of the up-to-four inner writes; output parsed and interpreted by the reference models, return value compared with the bytes the writer accepted.",
+        "design_ref": "7 C17",
+        "note": "trusts refmodel::{vt,sgr}",
+        "technique": "runtime monitoring: scripted fault-injecting writer + reference interpretation of the accepted bytes, exhaustive colour pairs and fault scripts",
+    },
+    "C18": {
+        "text": "The Windows-only stream source is compiled from the working tree into the harness and driven against a recording / misbehaving console: all console scripts up to the depth bound x short inputs x 4 APIs, SGR-grammar texts under chunkings, hostile streams.  WinconStream::write reporting a buffer as consumed after a short console write is a recorded known finding (F14).",
+        "design_ref": "7 C18, 6 F14",
+        "note": "covers the platform-independent stream only (as the property says); Windows console API code is never executed here",
+        "technique": "runtime monitoring: recording console writer + reference run model, exhaustive fault scripts",
+    },
 }
